@@ -10,6 +10,10 @@ for p in props:
     c = claims.get(p['id'])
     if not c:
         continue
+    evp = os.path.join(V, 'evidence', p['id'] + '.json')
+    if os.path.exists(evp):
+        cov = json.load(open(evp))['coverage']
+        c = dict(c, text="Level 'other': structural necessary conditions only. " + cov['explanation'], note="Not decided: " + cov['not_decided'])
     checks.append({
         "property_id": p['id'],
         "quick_cmd": f"./bin/defracheck -repo /repo -property {p['id']} -tier quick",
